@@ -257,6 +257,10 @@ func Quiesce() {}
 // Ghost reads an engine-side ghost counter (e.g. "otter.closed"); natively 0.
 func Ghost(name string) int { return 0 }
 
+// MapExtraSize (xsync.MapOf model): from now on the map also holds n other entries, whose keys differ from every key
+// the code under test looks up; they only show in Size(). Model-level.
+func MapExtraSize(m any, n int) {}
+
 // ---- modular verification primitives (symbolic executor only; natively they abort the replay)
 
 // SymbolicMemory switches the executor to fully symbolic byte offsets/lengths for this harness (no
